@@ -134,9 +134,15 @@ impl Pool {
         k1[0] = 7;
         let mut k2 = [0u8; 32];
         rng.fill(&mut k2);
+        let chunk_hashes = engineered(rng, n, nprefix);
+        let mut xorb_hashes = engineered(rng, n, nprefix);
+        // a xorb holding a single chunk is named by that chunk's hash (the aggregate of one leaf is the leaf)
+        for c in chunk_hashes.iter().take((n / 3).max(1)) {
+            xorb_hashes.push(*c);
+        }
         Pool {
-            chunk_hashes: engineered(rng, n, nprefix),
-            xorb_hashes: engineered(rng, n, nprefix),
+            chunk_hashes,
+            xorb_hashes,
             file_hashes: engineered(rng, n, nprefix),
             keys: vec![MerkleHash::from(k1), MerkleHash::from(k2)],
         }
@@ -151,6 +157,10 @@ fn random_model(rng: &mut Rng_, pool: &Pool, sid: &str, max_x: usize, max_f: usi
     for h in xs.into_iter().take(nx) {
         // content addressing: the chunk list is a function of the xorb hash (two shards naming the same xorb agree)
         let mut r2 = crate::util::rng(u64::from_le_bytes(hb(&h)[16..24].try_into().unwrap()) ^ 0xc0ffee);
+        if pool.chunk_hashes.contains(&h) {
+            m.xorbs.push(XorbRec { h, chunks: vec![(h, r2.gen_range(1..2000u32), h)] });
+            continue;
+        }
         let nc = r2.gen_range(1..=max_chunks);
         let mut chunks = vec![];
         for _ in 0..nc {
@@ -551,8 +561,17 @@ fn queries(rng: &mut Rng_, pool: &Pool, models: &[&Model], n: usize) -> Vec<Vec<
                     q[p] = pool.chunk_hashes[rng.gen_range(0..pool.chunk_hashes.len())]; // mutated in one position
                 },
                 1 => {
-                    for _ in 0..rng.gen_range(1..3) {
-                        q.push(pool.chunk_hashes[rng.gen_range(0..pool.chunk_hashes.len())]); // running past the end
+                    // running past the end of the xorb: random hashes, or the name of the xorb stored right after it
+                    q = x.chunks[a..].iter().map(|c| c.2).collect();
+                    let mut names: Vec<MerkleHash> = models.iter().flat_map(|m| m.xorbs.iter().map(|y| y.h)).collect();
+                    names.sort();
+                    let next = names.iter().find(|h| **h > x.h).copied();
+                    match next {
+                        Some(nx) if rng.gen_bool(0.6) => q.push(nx),
+                        _ => {},
+                    }
+                    for _ in 0..rng.gen_range(0..3) {
+                        q.push(pool.chunk_hashes[rng.gen_range(0..pool.chunk_hashes.len())]);
                     }
                 },
                 _ => {},
